@@ -350,22 +350,35 @@ class CFG:
                 for t, l in n.succ:
                     yield n, t, l
 
-    def dominating_facts(self, target):
+    def must_pass_edges(self, target, edges, start=None):
+        """every path start(entry) -> target uses one of the given (src, dst, label) edges"""
+        r = self.reach([self.entry.id if start is None else start], avoid_edges=edges)
+        return target not in r
+
+    def edges_of(self, pred):
+        """(src, dst, label) for branch edges whose (cond node, label) satisfies pred"""
+        return [(n.id, t, l) for n, t, l in self.cond_edges() if pred(n, l)]
+
+    def dominating_facts(self, target, avoid_edges=()):
         """[(cond node, label)] such that every path entry->target takes that branch edge,
-        and nothing between the last such edge and target rewrites what the condition reads"""
+        and nothing between the last such edge and target rewrites what the condition reads.
+        `avoid_edges` removes edges first (e.g. the 'an error is already pending' exits)."""
         out = []
-        live = self.reach([self.entry.id])
+        base = list(avoid_edges)
+        live = self.reach([self.entry.id], avoid_edges=base)
         if target not in live:
             return out
-        back = self.coreach([target])
+        back = self.coreach([target], avoid_edges=base)
         for n, t, l in self.cond_edges():
             if n.id not in live or n.id not in back:
                 continue
             e = (n.id, t, l)
-            if target in self.reach([self.entry.id], avoid_edges=[e]):
+            if e in base:
+                continue
+            if target in self.reach([self.entry.id], avoid_edges=base + [e]):
                 continue
             # kill check on the region between edge target and `target` (not re-taking e)
-            region = self.reach([t], avoid_edges=[e]) & self.coreach([target], avoid_edges=[e])
+            region = self.reach([t], avoid_edges=base + [e]) & self.coreach([target], avoid_edges=base + [e])
             region.discard(target)
             reads = cx.subexprs_text(n.ast)
             roots = cx.refs(n.ast)
@@ -384,10 +397,10 @@ class CFG:
                 out.append((n, l))
         return out
 
-    def fact_texts(self, target):
+    def fact_texts(self, target, avoid_edges=()):
         """dominating facts as normalised strings: 'T:expr' / 'F:expr' / 'case V:expr'"""
         out = set()
-        for n, l in self.dominating_facts(target):
+        for n, l in self.dominating_facts(target, avoid_edges):
             if n.kind == 'cond':
                 out.add('%s:%s' % (l, cx.render(n.ast)))
             else:
